@@ -422,6 +422,36 @@ func (w *World) MayEffect(f *ssa.Function) bool {
 	if sp := w.SpecFor(f); sp != nil && sp.Effect {
 		res = true
 	}
+	if !res {
+		res = w.bodyMayEffect(f)
+	}
+	if res {
+		w.mayEffect[f] = 2
+	} else {
+		w.mayEffect[f] = 1
+	}
+	return res
+}
+
+// BodyMayEffect: the body of f can append events (not counting the event of calling f itself when f is declared
+// `effect`).
+func (w *World) BodyMayEffect(f *ssa.Function) bool {
+	if w.mayEffect == nil {
+		w.mayEffect = map[*ssa.Function]int{}
+	}
+	saved, had := w.mayEffect[f]
+	w.mayEffect[f] = 3
+	res := w.bodyMayEffect(f)
+	if had {
+		w.mayEffect[f] = saved
+	} else {
+		delete(w.mayEffect, f)
+	}
+	return res
+}
+
+func (w *World) bodyMayEffect(f *ssa.Function) bool {
+	res := false
 	for _, b := range f.Blocks {
 		if res {
 			break
@@ -455,11 +485,6 @@ func (w *World) MayEffect(f *ssa.Function) bool {
 				}
 			}
 		}
-	}
-	if res {
-		w.mayEffect[f] = 2
-	} else {
-		w.mayEffect[f] = 1
 	}
 	return res
 }
